@@ -1,8 +1,8 @@
 """C13-C18: reference forms, guard tables and data rules of the mathematical functions."""
-import math
+import math, re
 from . import vg, norm, helpers as H, facts as F, dectree as D, idioms, oracle, refs
 from .dectree import IF, RET, TRUE, FALSE
-from .dsl import V, TFv, param, libm, f64m, cast, const_tf, fcmp, tcmp, teq, RETV, NAN_LEAF, leaf_eq_nan, lift
+from .dsl import V, TFv, param, libm, f64m, cast, const_tf, fcmp, tcmp, teq, RETV, NAN_LEAF, STRICT_NAN_LEAF, leaf_eq_nan, lift
 from .helpers import P, TF
 from .terms import mk, tag, all_nodes
 from .rules_arith import find_by_shape
@@ -57,6 +57,28 @@ class Fx(object):
                             rhex = "".join(el[::-1])
                             c2 = dict(c, val=dict(c["val"], hex=rhex), stored_descending=True)
                             self.tables[(fam, k)] = (mk("carray", ty, rhex), c2)
+            # a family stored as two parallel f64 tables (high words, low words) read at one index: the table of pairs
+            f64s = []
+            for c in self.f.consts:
+                m = re.match(r"^\[f64; (\d+)\]$", F.norm_ty(c["ty"]))
+                if m and "hex" in (c.get("val") or {}) and "::tests::" not in c["key"]:
+                    f64s.append((int(m.group(1)), c))
+            for n, ca in f64s:
+                his = [oracle.f64_of(x) for x in F.words_from_hex(ca["val"]["hex"])]
+                if n < 4:
+                    continue
+                fam, k, frac = oracle.infer_family(his)
+                if frac < 0.9 or (fam, k) in self.tables:
+                    continue
+                for n2, cb in f64s:
+                    if n2 != n or cb is ca:
+                        continue
+                    los = [oracle.f64_of(x) for x in F.words_from_hex(cb["val"]["hex"])]
+                    if all(math.isfinite(h) and oracle.valid(h, l) and (l == 0 or abs(l) < abs(h)) for h, l in zip(his, los)):
+                        node = norm.zip_carrays(mk("carray", "[f64; %d]" % n, ca["val"]["hex"]), mk("carray", "[f64; %d]" % n, cb["val"]["hex"]))
+                        c2 = dict(ca, ty="[TwoFloat; %d]" % n, val=dict(ca["val"], hex=node[2]), path="%s + %s" % (ca["path"], cb["path"]), parallel_words=True)
+                        self.tables[(fam, k)] = (node, c2)
+                        break
         return self.tables
 
 def horner_chain(x, table, lo, hi):
@@ -1391,7 +1413,7 @@ def check_powi_loop(fx):
     one = N.norm(TFv(1.0, 0.0).t)
     recip = N.norm(mk("call", "TwoFloat::recip", s))
     # special cases by specialising the exponent to a constant (all tests on n fold)
-    want = {0: IF(fcmp("eq", V(s, "TF").hi, 0.0), IF(fcmp("eq", V(s, "TF").lo, 0.0), NAN_LEAF, ("leaf", one, ())), ("leaf", one, ())),
+    want = {0: IF(fcmp("eq", V(s, "TF").hi, 0.0), IF(fcmp("eq", V(s, "TF").lo, 0.0), STRICT_NAN_LEAF, ("leaf", one, ())), ("leaf", one, ())),
             1: ("leaf", s, ()), -1: ("leaf", recip, ())}
     oks = {}
     for n, ref in want.items():
